@@ -392,6 +392,8 @@ partial def loopIO (h : IO.FS.Stream) : IO Unit := do
   | "OPTS" :: rest => IO.println (runOpts rest)
   | ["PARSE", hex] => IO.println (runParse hex)
   | ["PARSE"] => IO.println (runParse "")
+  | ["UNITABLES"] =>
+    IO.println s!"S:{showNats pySpaces} D:{",".intercalate (ndZeros.flatMap (fun z => (List.range 10).map (fun i => s!"{z+i}={i}")))} L:{showNats pyLineBreaks}"
   | "DUMP" :: d :: rest =>
     match d.toNat?, parseCase rest with
     | some d, some c => IO.println (runDump d c)
